@@ -17,8 +17,6 @@ Validated input and output of tabular data in various formats.
 # along with this program.  If not, see <http://www.gnu.org/licenses/>.
 import itertools
 
-import sys
-
 from cutplace import _compat, data, errors, interface, rowio
 from cutplace import _verif
 
@@ -172,8 +170,9 @@ class BaseValidator(object):
             try:
                 for check_name in self.cid.check_names:
                     self.cid.check_map[check_name].check_at_end(self.location)
+                _verif.emit("close_checked", self)
             finally:
-                _verif.emit("close_end", self, error=sys.exc_info()[1], failed=locals().get("check_name"))
+                _verif.emit("close_end", self, last=locals().get("check_name"))
                 for check in self.cid.check_map.values():
                     check.cleanup()
             self._is_closed = True
